@@ -24,9 +24,8 @@ MANIFEST = {
     'note': ('trusted: Coq kernel, py2v translator for the two regenerated kernels, the hand-written model M (tied to the code only by the correspondence '
              'cases of this run), harness/literal printer, Series.to_frame for Series inputs, NumPy sort order of int/str labels, cast model (int -> float '
              'exact: generated ints are small). Partial: S compares cells up to numeric widening (dtype choice is C07); label dtype coercion between '
-             'indices (e.g. an empty float64 index) is outside; names are not compared; Frame.reindex on both axes is modelled only where the first '
-             'overlay container shares labels with the target on both axes or on none (known finding otherwise); the overlay theorems are about the block '
-             'walk and the per-cell fold, the end-to-end overlay M = S is observed by correspondence, not proved. Six known findings are listed in known/C11.jsonl.'),
+             'indices (e.g. an empty float64 index) is outside; names are not compared; the overlay theorems are about the block '
+             'walk and the per-cell fold, the end-to-end overlay M = S is observed by correspondence, not proved. Five known findings (zero-size results that raise) are listed in known/C11.jsonl; the both-axes reindex defect found here was repaired (658b4ce) and is kept as regression cases.'),
     'technique': 'refinement proof (implementation model = label-level specification, all block layouts) + differential correspondence through the public constructors',
 }
 PROPERTY_FILES = ['Properties/C11.v']
@@ -519,7 +518,7 @@ def items_cases(ctx):
 F_OV_FIRST = 'C11-overlay-first-no-columns'
 F_OV_ZERO = 'C11-overlay-zero-columns'
 F_OV_ROWS = 'C11-overlay-zero-rows'
-F_OV_REINDEX = 'C11-reindex-both-one-axis-disjoint'
+# (C11-reindex-both-one-axis-disjoint: repaired in /repo by 658b4ce -- resize_blocks consults has_common per axis; its inputs are kept as regression cases)
 
 
 def gen_overlay_column(rng, kind, rows):
@@ -561,18 +560,12 @@ def overlay_case(ctx, kind, frames, union, index, columns, as_generator=False):
     obs, out = res_frame(lambda: sf.Frame.from_overlay(arg, union=union, index=index, columns=columns))
     args = f'{lit.b(union)} {olabels_lit(index)} {olabels_lit(columns)} {lit.lst([frame_lit(f) for f in frames])} {obs}'
     tags = {'api': 'Frame.from_overlay', 'union': union}
-    model = True
     if frames:
         f0 = frames[0]
         tidx = target_set(index, union, [lit.labels(f.index) for f in frames])
         tcols = target_set(columns, union, [lit.labels(f.columns) for f in frames])
         if f0.shape[1] == 0:
             tags['finding'] = F_OV_FIRST
-        elif bool(set(lit.labels(f0.index)) & tidx) != bool(set(lit.labels(f0.columns)) & tcols):
-            # the first container shares labels with the target on exactly one axis: the both-axes path of
-            # TypeBlocks.resize_blocks (type_blocks.py:728-772) is wrong there
-            tags['finding'] = F_OV_REINDEX
-            model = False           # outside the modelled domain of Frame.reindex (both axes): only S is evaluated
         elif not tcols and len(frames) >= 2:
             tags['finding'] = F_OV_ZERO
         elif not tidx and len(frames) >= 2:
@@ -582,7 +575,7 @@ def overlay_case(ctx, kind, frames, union, index, columns, as_generator=False):
     return Case(kind,
                 {'call': 'sf.Frame.from_overlay', 'union': union, 'index': index, 'columns': columns, 'generator_input': as_generator,
                  'inputs': [frame_desc(f) for f in frames], 'observed': frame_desc(out) if ok else lit.err_class(out)},
-                m=f'MV_overlay_ok {args}' if model else None, s=f'SV_overlay_ok {args}', tags=tags, nontrivial=len(frames) >= 2)
+                m=f'MV_overlay_ok {args}', s=f'SV_overlay_ok {args}', tags=tags, nontrivial=len(frames) >= 2)
 
 
 def overlay_cases(ctx):
@@ -641,8 +634,11 @@ def witness_cases(ctx):
     yield overlay_case(ctx, 'witness', [e, a], True, None, None)                           # first container without columns
     yield overlay_case(ctx, 'witness', [a, b], False, None, None)                          # no common column, no common row
     yield overlay_case(ctx, 'witness', [a, b.relabel(columns=('p',))], False, None, ['w'])  # no row in the result, >= 2 containers
-    yield overlay_case(ctx, 'witness', [a], True, ['m', 'n'], ['q', 'zz'])                  # rows disjoint, columns shared: cells moved
-    yield overlay_case(ctx, 'witness', [a, b], True, None, ['r'])                           # columns disjoint, rows shared: TypeError
+    # regression (fixed 658b4ce): the first container shares labels with the target on exactly one axis
+    yield overlay_case(ctx, 'regression', [a], True, ['m', 'n'], ['q', 'zz'])               # rows disjoint (same length): cells were moved to m, n
+    yield overlay_case(ctx, 'regression', [a], True, ['m', 'n', 'o'], ['q', 'zz'])          # rows disjoint (other length): was ValueError
+    yield overlay_case(ctx, 'regression', [a, b.relabel(columns=('q',))], False, None, None)  # empty row intersection, shared column: was ValueError
+    yield overlay_case(ctx, 'regression', [a, b], True, None, ['r'])                        # columns disjoint, rows shared: was TypeError
 
 
 # ----------------------------------------------------------------------------- kernel: the set operations on labels
